@@ -1,4 +1,7 @@
 import InToto.Properties.C15
+#print axioms InToto.C15.verification_never_panics
+#print axioms InToto.C15.reduce_panics_only_without_links
+#print axioms InToto.C15.loading_never_panics
 #print axioms InToto.C15.key_construction_never_panics
 #print axioms InToto.C15.verify_signature_never_panics
 #print axioms InToto.C15.signing_never_panics
